@@ -87,7 +87,9 @@ func zzCheckItem(it *zzItem, xerr xerrors.XError, wantV int64, wantOK bool, what
 	}
 }
 
-func zzC18(nsteps, nkeys int, withReopen, preseed bool) {
+func zzC18(nsteps, nkeys int, withReopen, preseed bool) { zzC18x(nsteps, nkeys, withReopen, preseed, false) }
+
+func zzC18x(nsteps, nkeys int, withReopen, preseed, withCancel bool) {
 	dir := zzverif.TempDir()
 	l := zzNewLedger(dir)
 	m := &zzModel{committed: []map[int]int64{{}}, cons: map[int]zzEntry{}, mem: map[int]zzEntry{}, memFuzzy: map[int]bool{}}
@@ -103,11 +105,23 @@ func zzC18(nsteps, nkeys int, withReopen, preseed bool) {
 		m.committed = append(m.committed, map[int]int64{0: v0})
 	}
 	nops := 9
-	if withReopen {
+	if withReopen || withCancel {
 		nops = 10
 	}
+	if withCancel {
+		nops = 14
+	}
+	// number of pending changes per key and overlay since the last commit: the
+	// statement fixes what a cancel does only when it undoes the single pending
+	// change of that key ("the overlay entry goes away"); anything else ends the path
+	consOps := map[int]int{}
+	memOps := map[int]int{}
+	memTaint := map[int]bool{} // a consensus delete touched the mempool overlay of this key since the last commit
 	for step := 0; step < nsteps; step++ {
 		op := zzverif.Choose("op", nops)
+		if op == 9 && !withReopen {
+			op = 7
+		}
 		k := 0
 		if op != 7 && op != 9 {
 			k = zzverif.Choose("key", nkeys)
@@ -117,6 +131,7 @@ func zzC18(nsteps, nkeys int, withReopen, preseed bool) {
 			v := zzverif.NondetI64("val")
 			zzverif.Assert(l.SetFinality(&zzItem{K: byte(k), V: v}) == nil, "SetFinality succeeds")
 			m.cons[k] = zzEntry{true, v}
+			consOps[k]++
 		case 1: // GetFinality
 			it, xerr := l.GetFinality(zzKey(k))
 			wv, wok := m.consView(k)
@@ -127,12 +142,15 @@ func zzC18(nsteps, nkeys int, withReopen, preseed bool) {
 			zzCheckItem(it, xerr, wv, wok, "DelFinality")
 			if wok {
 				m.cons[k] = zzEntry{present: false}
+				consOps[k]++
 			}
 			m.memFuzzy[k] = true // the implementation also drops it from the mempool view
+			memTaint[k] = true
 		case 3: // Set (mempool overlay)
 			v := zzverif.NondetI64("val")
 			zzverif.Assert(l.Set(&zzItem{K: byte(k), V: v}) == nil, "Set succeeds")
 			m.mem[k] = zzEntry{true, v}
+			memOps[k]++
 			if m.memFuzzy[k] {
 				// a consensus delete was leaked into this view before; after a
 				// fresh write the view is determined again only if re-creation works
@@ -151,8 +169,10 @@ func zzC18(nsteps, nkeys int, withReopen, preseed bool) {
 				zzCheckItem(it, xerr, wv, wok, "Del")
 				if wok {
 					m.mem[k] = zzEntry{present: false}
+					memOps[k]++
 				}
 			} else if xerr == nil {
+				memOps[k]++
 				m.mem[k] = zzEntry{present: false}
 				delete(m.memFuzzy, k)
 			}
@@ -179,6 +199,9 @@ func zzC18(nsteps, nkeys int, withReopen, preseed bool) {
 			m.cons = map[int]zzEntry{}
 			m.mem = map[int]zzEntry{}
 			m.memFuzzy = map[int]bool{}
+			consOps = map[int]int{}
+			memOps = map[int]int{}
+			memTaint = map[int]bool{}
 			zzverif.Assert(l.Version() == ver, "Version() is the committed version")
 		case 8: // historical read
 			if len(m.committed) > 1 {
@@ -217,7 +240,50 @@ func zzC18(nsteps, nkeys int, withReopen, preseed bool) {
 			m.cons = map[int]zzEntry{}
 			m.mem = map[int]zzEntry{}
 			m.memFuzzy = map[int]bool{}
+			consOps = map[int]int{}
+			memOps = map[int]int{}
+			memTaint = map[int]bool{}
 			zzverif.Assert(l.Version() == int64(len(m.committed)-1), "reopened ledger is at the last committed version")
+		case 10, 11: // CancelSetFinality / CancelDelFinality
+			e, pending := m.cons[k]
+			if pending && (consOps[k] != 1 || e.present != (op == 10)) {
+				zzverif.Reach("C18 cancel outside the statement")
+				_ = l.Close()
+				return
+			}
+			if op == 10 {
+				zzverif.Assert(l.CancelSetFinality(zzKey(k)) == nil, "CancelSetFinality succeeds")
+			} else {
+				zzverif.Assert(l.CancelDelFinality(zzKey(k)) == nil, "CancelDelFinality succeeds")
+			}
+			if pending {
+				delete(m.cons, k)
+				consOps[k] = 0
+				zzverif.Reach("C18 cancel undoes the pending change")
+			}
+			it, xerr := l.GetFinality(zzKey(k))
+			wv, wok := m.consView(k)
+			zzCheckItem(it, xerr, wv, wok, "GetFinality after cancel")
+		case 12, 13: // CancelSet / CancelDel (mempool overlay)
+			e, pending := m.mem[k]
+			if m.memFuzzy[k] || memTaint[k] || (pending && (memOps[k] != 1 || e.present != (op == 12))) {
+				zzverif.Reach("C18 cancel outside the statement")
+				_ = l.Close()
+				return
+			}
+			if op == 12 {
+				zzverif.Assert(l.CancelSet(zzKey(k)) == nil, "CancelSet succeeds")
+			} else {
+				zzverif.Assert(l.CancelDel(zzKey(k)) == nil, "CancelDel succeeds")
+			}
+			if pending {
+				delete(m.mem, k)
+				memOps[k] = 0
+				zzverif.Reach("C18 cancel undoes the pending change")
+			}
+			it, xerr := l.Get(zzKey(k))
+			wv, wok := m.memView(k)
+			zzCheckItem(it, xerr, wv, wok, "Get after cancel")
 		}
 	}
 	// final sweep: every view of every key, every historical version
@@ -276,3 +342,7 @@ func ZZ_C18_Seq3b() { zzC18(3, 2, true, true) }
 func ZZ_C18_Seq4()  { zzC18(4, 2, true, false) }
 func ZZ_C18_Seq4b() { zzC18(4, 2, false, true) }
 func ZZ_C18_Seq5()  { zzC18(5, 2, false, false) }
+
+// with the four Cancel* operations (operation alphabet of 13)
+func ZZ_C18_Seq3c() { zzC18x(3, 2, false, true, true) }
+func ZZ_C18_Seq4c() { zzC18x(4, 2, false, true, true) }
